@@ -35,7 +35,11 @@ func classify(kind string, chunked bool) (phase string, retryable bool, sawStatu
 		}
 	}
 	tr := &http.Transport{DisableKeepAlives: true}
-	req, _ := http.NewRequest("POST", b.URL()+"/v1/chat/completions", bytes.NewReader([]byte("{}")))
+	target := b.URL()
+	if kind == "dnsfail" {
+		target = "http://" + scen.UnresolvableHost + ":80"
+	}
+	req, _ := http.NewRequest("POST", target+"/v1/chat/completions", bytes.NewReader([]byte("{}")))
 	resp, err := tr.RoundTrip(req)
 	if err != nil {
 		f := common.MakeUserFriendlyError(err, 10*time.Millisecond, "backend", time.Minute)
